@@ -16,7 +16,7 @@ import (
 )
 
 type opT struct {
-	code   int64 // 1 sync, 2 key, 3 clear/age the assignment cache, 4 delete the NodeShard
+	code   int64 // 1 sync, 2 key, 3 clear/age the assignment cache, 4 delete the NodeShard, 5 sync with failing NodeShard writes (hidden = the failing ones)
 	s      int64 // scheduler (2, 4); 3: 0 = cleared as by a ConfigMap reload, 1 = aged beyond its retention
 	hidden []int64
 }
@@ -126,6 +126,7 @@ func computeOps(toks []int64) (o pubOutcome) {
 		// step (bookkeeping for the signature only): a global sync does it for all; a key
 		// does it when the cache is empty/expired (fallback) or was filled during this step
 		processed := map[string]bool{}
+		faulted := map[string]bool{}
 		if cacheState == cacheFresh {
 			cacheState = cacheStale // filled by a sync on the previous inputs
 		}
@@ -153,6 +154,25 @@ func computeOps(toks []int64) (o pubOutcome) {
 				cacheState = cacheEmpty
 			case 4:
 				p.DeleteShard(schedName(op.s))
+			case 5:
+				// a global sync while the API server refuses every write of the NodeShards in
+				// op.hidden (beyond the worker's 1+3 attempts: the key is dropped) and refuses the
+				// first (name mod 4) writes of the others (within the budget: the retry succeeds)
+				p.HideShards(nil)
+				for _, sp := range h.specs {
+					p.FailShardWrites(schedName(sp.name), int(sp.name%4))
+					processed[schedName(sp.name)] = true
+				}
+				for _, f := range op.hidden {
+					p.FailShardWrites(schedName(f), 1000)
+					faulted[schedName(f)] = true
+				}
+				p.SyncShards()
+				p.DrainWithRetries()
+				for _, sp := range h.specs {
+					p.FailShardWrites(schedName(sp.name), 0)
+				}
+				cacheState = cacheFresh
 			default:
 				panic("harness: unknown op")
 			}
@@ -161,7 +181,7 @@ func computeOps(toks []int64) (o pubOutcome) {
 		pub := p.Published()
 		calc, _ := realRun(in, 1-k%2, listerNodes(nodes, false))
 		o.pubs = append(o.pubs, encResult(pub))
-		o.judge = append(o.judge, judgeStep(prev, pub, calc, processed))
+		o.judge = append(o.judge, judgeStep(prev, pub, calc, processed, faulted))
 		prev = pub
 	}
 	return o
@@ -232,8 +252,38 @@ func genOpsHistory(r *vh.Rng) *opsHistT {
 		}
 		return out
 	}
-	for range h.steps {
+	healNext := false
+	for k := range h.steps {
 		var ops []opT
+		if healNext {
+			// the API server has recovered; nothing else changed: the periodic sync must repair
+			// every NodeShard whose key was dropped
+			healNext = false
+			h.steps[k] = h.steps[k-1]
+			h.ops = append(h.ops, []opT{{code: 1}})
+			for _, n := range names {
+				exists[n] = true
+			}
+			continue
+		}
+		if k > 0 && k+1 < len(h.steps) && r.Chance(1, 5) {
+			failed := subset(names, 1, 2)
+			if len(failed) == 0 {
+				failed = []int64{vh.Pick(r, names)}
+			}
+			isFailed := map[int64]bool{}
+			for _, f := range failed {
+				isFailed[f] = true
+			}
+			for _, n := range names {
+				if !isFailed[n] {
+					exists[n] = true
+				}
+			}
+			h.ops = append(h.ops, []opT{{code: 5, hidden: failed}})
+			healNext = true
+			continue
+		}
 		absent := func() []int64 {
 			out := []int64{}
 			for _, n := range names {
@@ -320,7 +370,27 @@ func fixedOpsHistories() []genCase {
 	for i := range n1.steps[1].metrics {
 		n1.steps[1].metrics[i].util = 100 * int64(4-i)
 	}
+	// seed C17-r6-2's scenario: s1 = [0,0.6], s2 = [0.7,1.0]; n2 rises; every write of s1 fails in
+	// that round; the API recovers; the next periodic sync (same metrics) must repair s1
+	band := func(name, lo, hi int64) specT {
+		return specT{name: name, cpumax: 1000, pols: []polT{{name: 1, weight: 1, args: []argT{{1, lo}, {2, hi}}}}}
+	}
+	lost := &opsHistT{ops: [][]opT{{{code: 1}}, {{code: 5, hidden: []int64{1}}}, {{code: 1}}, {{code: 1}}}}
+	lost.specs = []specT{band(1, 0, 600), band(2, 700, 1000)}
+	for k := 0; k < 4; k++ {
+		u2 := int64(300)
+		if k > 0 {
+			u2 = 900
+		}
+		st := stepT{}
+		for i, u := range []int64{200, u2, 800} {
+			st.nodes = append(st.nodes, nodeT{name: int64(i + 1)})
+			st.metrics = append(st.metrics, metricT{name: int64(i + 1), present: true, util: u})
+		}
+		lost.steps = append(lost.steps, st)
+	}
 	return []genCase{
+		{id: "lost-update-repaired-by-next-sync", kind: "publish-ops", sel: 8, ops: lost},
 		{id: "fallback-one-key-after-metrics-change", kind: "publish-ops", sel: 8, ops: n1},
 		{id: "fallback-predecessor-shard-missing", kind: "publish-ops", sel: 8,
 			ops: mk([][]opT{{{code: 3}, {code: 2, s: 2}, {code: 2, s: 1}}})},
